@@ -162,7 +162,10 @@ std::string runCase(const Case &c) {
   auto &lg = cl::Logging::instance();   // make sure the type is complete before reset
   (void)lg;
   cl::Logging::reset();
-  cl::filter::Filters::setDuplicatePolicy(DuplicatePolicy::ignore);   // the documented default
+  // cases are independent: whatever policy the previous case of this process ended with, the process is brought back to
+  // the documented default through two real transitions (a case that fails must fail from its own file in a fresh process)
+  cl::filter::Filters::setDuplicatePolicy(DuplicatePolicy::exception);
+  cl::filter::Filters::setDuplicatePolicy(DuplicatePolicy::ignore);
   int policy = P_IGNORE;
 
   Recorder rec;
